@@ -1489,6 +1489,18 @@ def shared_state_findings(ctx):
                 out.append((fi.qual, ctx.site(fi, fi.node), fi,
                             '%s is memoised (%s) but returns a mutable object: every caller gets the same object' % (
                                 fi.qual, ', '.join(d for d in decos if d in ('lru_cache', 'cache', 'cached_property')))))
+    # a module-level container handed out by a function: `return TABLE` gives every caller the one object, and the first caller that
+    # appends to what it got (`payloads += [..]`) changes what every later caller gets
+    for fi in all_defs():
+        if not isinstance(fi.node, (ast.FunctionDef, ast.AsyncFunctionDef)):
+            continue
+        local = {x.id for x in ast.walk(fi.node) if isinstance(x, ast.Name) and isinstance(x.ctx, (ast.Store, ast.Del))} | {
+            a.arg for a in ast.walk(fi.node.args) if isinstance(a, ast.arg)}
+        for x in ast.walk(fi.node):
+            if isinstance(x, ast.Return) and isinstance(x.value, ast.Name) and x.value.id not in local \
+                    and (fi.module.name, x.value.id) in module_containers:
+                out.append(('%s.%s' % (fi.module.name, x.value.id), ctx.site(fi, x), fi,
+                            'module-level container `%s` is returned by %s: every caller receives the same object' % (x.value.id, fi.qual)))
     # mutable defaults of record fields
     for m in prog.modules.values():
         for x in ast.walk(m.tree):
